@@ -87,7 +87,9 @@ func ReadBytesLen(rd io.Reader, maxLength int) (bytes []byte, err error) {
 		return
 	}
 	bytes = make([]byte, length)
-	_, err = rd.Read(bytes)
+	if _, err = io.ReadFull(rd, bytes); err != nil {
+		return nil, err
+	}
 	return
 }
 
@@ -210,7 +212,9 @@ func ReadUint8(reader io.Reader) (val uint8, err error) {
 		return br.ReadByte()
 	}
 	var protocol [1]byte
-	_, err = reader.Read(protocol[:1])
+	if _, err = io.ReadFull(reader, protocol[:1]); err != nil {
+		return 0, err
+	}
 	val = protocol[0]
 	return
 }
@@ -227,7 +231,9 @@ func ReadInt16(reader io.Reader) (val int16, err error) {
 
 func ReadUint16(reader io.Reader) (val uint16, err error) {
 	var protocol [2]byte
-	_, err = reader.Read(protocol[:2])
+	if _, err = io.ReadFull(reader, protocol[:2]); err != nil {
+		return 0, err
+	}
 	val = binary.BigEndian.Uint16(protocol[:2])
 	return
 }
@@ -264,7 +270,9 @@ func ReadInt(rd io.Reader) (int, error) {
 
 func ReadUint32(reader io.Reader) (val uint32, err error) {
 	var protocol [4]byte
-	_, err = reader.Read(protocol[:4])
+	if _, err = io.ReadFull(reader, protocol[:4]); err != nil {
+		return 0, err
+	}
 	val = binary.BigEndian.Uint32(protocol[:4])
 	return
 }
@@ -277,7 +285,9 @@ func ReadInt64(reader io.Reader) (val int64, err error) {
 
 func ReadUint64(reader io.Reader) (val uint64, err error) {
 	var protocol [8]byte
-	_, err = reader.Read(protocol[:8])
+	if _, err = io.ReadFull(reader, protocol[:8]); err != nil {
+		return 0, err
+	}
 	val = binary.BigEndian.Uint64(protocol[:8])
 	return
 }
@@ -330,8 +340,10 @@ func ReadBytes17(rd io.Reader) ([]byte, error) {
 	}
 
 	b := make([]byte, length)
-	_, err = rd.Read(b)
-	return b, err
+	if _, err = io.ReadFull(rd, b); err != nil {
+		return nil, err
+	}
+	return b, nil
 }
 
 func ReadUUID(rd io.Reader) (id uuid.UUID, err error) {
